@@ -149,6 +149,28 @@ def run(ctx):
     # a share of the cases runs on parsers that were all constructed before any of them was used (state shared behind
     # the constructor would surface as another case's result)
     results = core.run_cases_prebuilt(ctx, cases, lambda i: i % 4 == 0 and not ctx.replay, size=5)
+    # ---- no RELATIVE_BASE: the reference is the current instant (UTC).  Clock times some hours before / after now, every
+    # preference, in worker processes whose local zone is far from UTC: the clock of the PROCESS is not the reference
+    if not ctx.replay:
+        nowu = datetime.datetime.utcnow()
+        live = []
+        for dh in (-13, -9, -7, -2, 2, 7, 9, 13):
+            t_ = nowu + datetime.timedelta(hours=dh)
+            minute = (nowu.minute + 30) % 60
+            for pref in ("past", "future", "current_period"):
+                live.append({"form": "time", "pref": pref, "base": [], "w": 0, "t": [t_.hour, minute, 0, 0], "m": 0, "d": 0, "yy": 0, "off": 0,
+                             "s": "%d:%02d" % (t_.hour, minute), "kw": {"languages": ["en"]}, "settings": {"PREFER_DATES_FROM": pref, "TIMEZONE": "UTC"},
+                             "api": "ddp", "probe": False, "live": True})
+        for tzenv in ("Pacific/Kiritimati", "America/New_York", "UTC"):
+            lr = core.run_cases(ctx, "harness.lib", "call_parse", live, nproc=2, env={"TZ": tzenv})
+            for c, r in zip(live, lr):
+                b = r["uclock0"]
+                sod_now = b[3] * 3600 + b[4] * 60 + b[5]
+                sod_t = c["t"][0] * 3600 + c["t"][1] * 60
+                if min((sod_now - sod_t) % 86400, (sod_t - sod_now) % 86400) < 300 or r["uclock0"][:3] != r["uclock1"][:3]:
+                    continue          # too close to the named time (or midnight passed during the call) to bracket
+                cases.append(dict(c, base=b, process_tz=tzenv))
+                results.append(r)
     records, nabs = [], 0
     for i, (c, r) in enumerate(zip(cases, results)):
         records.append({"kind": "c09", "tid": i, "form": c["form"], "pref": c["pref"], "base": c["base"], "w": c["w"],
